@@ -29,6 +29,11 @@ claimed.update({
    text="Tape-generated histories of user/route create/update/delete/flush on the real auth and route managers with their JSON providers on a simulated disk, checked against a model after every operation and after flush+restart; then exhaustively, for every flush of the history: process death before every file-system operation, torn writes at four offsets, ENOSPC/EIO at every operation followed by an immediate crash or by a retry. Oracle: a restarted server loads the complete previous or the complete new table, never fails to load, never falls back to admin/admin.",
    note="Trusted: simfs (in-memory stand-in for os/ioutil, import-substituted), its crash model (process death, completed calls persist; no power-loss reordering), encoding/json. Exhaustive over crash points per flush, seeded over histories."),
 })
+claimed.update({
+ "C14": dict(level="exploration", ref="§5 C14",
+   text="Messages over the header/URL/body grammar emitted by the real Request/Response/Packet Write methods, concatenated on a simulated connection whose reads return tape-chosen chunk sizes, with EOF at an arbitrary byte, garbage, an endless header line and an absurd Content-Length as faults; reader = the real receive dispatcher. Oracle: exactly the emitted sequence up to the fault, no invented message, error instead of panic/hang, bounded buffering and allocation for oversize input.",
+   note="Trusted: sim.Conn (TCP model: no loss/reorder), the comparison of multi-valued headers by joined value, thresholds stated in the evidence (1 MiB line, 4e8 Content-Length, 64 MiB allocation). The input grammar is sampled, not swept: only the chunking/EOF/fault dimension is what simulation adds."),
+})
 pending = {
 }
 not_applicable = {
